@@ -58,6 +58,7 @@ def main(argv=None) -> int:
             if not [f for f in ctx.findings if not getattr(f, "info", False)]:
                 raise
             ctx.note(f"analysis stopped early: {e}")
+            ctx.incomplete = True  # floors of the rules that did not run to the end are not enforced: the violations found stand
             print(f"ANALYSIS-INCOMPLETE property={prop}: {e} (violations found before that are reported)")
         if args.replay:
             want = json.loads(Path(args.replay).read_text())
